@@ -4,7 +4,7 @@ from ..engine import AND, OR, NOT
 from ..values import is_variant, payload, leaves, Vc, bv
 from .. import replay as rp
 from .. import oracles as O
-from .setops import bits_for, fnr, built
+from .setops import premise_group, bits_for, fnr, built
 
 from ..validate import validation_group
 BOUNDS = {'quick': {'slice length': '0..3', 'range alternatives': '1..2', 'mode': 'hybrid (identifiers abstract, any length)'},
@@ -23,6 +23,7 @@ def groups(tier):
     if tier != 'quick':
         gs.append({'name': 'concrete-N2-K1', 'fn': sat_group, 'args': {'N': 2, 'k': 1, 'hybrid': False, 'L': 2}})
     gs.append(validation_group(('max_satisfying',), tier))
+    gs.append(premise_group(tier))
     return gs
 
 
